@@ -130,9 +130,9 @@ def opDirx (cmp : Codec) (keep exp : Bool) (off0 hlinks xattr parent rootNum roo
     let (runs, st1) := dirEndM cmp st0 es
     let ref := dirRefOf st0
     let ino := createInode ref runs es.length hlinks xattr parent
-    let k : Keep := Keep.flush cmp { st := st1 }
-    let before := if keep then 0 else outBytes k.st.out
-    let k := if keep then k.writeToFile else { st := { k.st with out := [] }, file := k.st.out }
+    let k : FSt := (FSt.ofSt (if keep then metaWriterKeepInMemory else 0) st1).flush cmp
+    let before := outBytes k.file
+    let k := k.writeToFile
     let tbl := blocksBytes k.file
     let expTxt :=
       if exp then
@@ -155,10 +155,10 @@ def opMeta (cmp : Codec) (chunks : List (List UInt8)) : String :=
 
 /-- the same on a writer created with KEEP_IN_MEMORY, followed by `sqfs_meta_write_write_to_file` -/
 def opMetaKeep (cmp : Codec) (chunks : List (List UInt8)) : String :=
-  let k := chunks.foldl (Keep.append cmp) {}
+  let k := chunks.foldl (FSt.append cmp) { flags := metaWriterKeepInMemory }
   let fin := k.flush cmp
   let w := fin.writeToFile
-  s!"pos={k.st.blockOffset},{k.st.cur.length} end={fin.st.blockOffset},{fin.st.cur.length} filebefore={outBytes fin.file} {toHexTok (blocksBytes w.file)}"
+  s!"pos={k.blockOffset},{k.cur.length} end={fin.blockOffset},{fin.cur.length} filebefore={outBytes fin.file} {toHexTok (blocksBytes w.file)}"
 
 def opIds (lim : Nat) (ids : List Nat) (range : Bool) : String :=
   let rec go : List Nat → Nat → List Nat → List Nat → List Nat × List Nat × Option Nat
